@@ -1,6 +1,7 @@
 package main
 
 import (
+	"sort"
 	"fmt"
 	"go/token"
 	"go/types"
@@ -136,12 +137,23 @@ func runC01(c *Ctx) {
 	if raw == nil || str == nil || empty == nil || update == nil || mustCalc == nil {
 		return
 	}
-	un := FuncName(update)
+	// Update may hand parts of its work to unexported methods only it uses (on the same cell): the dispatch is
+	// looked for in whichever of them switches on the item
+	unit := updateUnitOf(c, update)
+	armFn := update
 	arms := typeSwitchArms(update, raw)
+	for _, f := range sortedFuncs(unit) {
+		if f != update {
+			if a2 := typeSwitchArms(f, raw); len(a2) > len(arms) {
+				arms, armFn = a2, f
+			}
+		}
+	}
+	un := FuncName(armFn)
 	// the dispatch may continue in a helper that Update hands the item to and whose result becomes the text
 	var helper *ssa.Function
 	var helperCall *ssa.Call
-	eachInstr(update, func(in ssa.Instruction) {
+	eachInstr(armFn, func(in ssa.Instruction) {
 		call, ok := in.(*ssa.Call)
 		if !ok || helper != nil {
 			return
@@ -218,7 +230,7 @@ func runC01(c *Ctx) {
 		}
 	}
 	for _, w := range []string{"nil", "Cell", "string", "rune", "iface:String", "iface:GoString", "iface:Error", "default"} {
-		r.Check("R01.1", un, "has arm "+w, update.Pos(), want[w], "documented arm missing from the dispatch")
+		r.Check("R01.1", un, "has arm "+w, armFn.Pos(), want[w], "documented arm missing from the dispatch")
 	}
 	pos := func(m string) int {
 		for i, x := range ifaceOrder {
@@ -229,16 +241,16 @@ func runC01(c *Ctx) {
 		return -1
 	}
 	if pos("String") >= 0 && pos("GoString") >= 0 && pos("Error") >= 0 {
-		r.Check("R01.1", un, "interface arms in order String < GoString < Error", update.Pos(), pos("String") < pos("GoString") && pos("GoString") < pos("Error"), fmt.Sprint(ifaceOrder))
+		r.Check("R01.1", un, "interface arms in order String < GoString < Error", armFn.Pos(), pos("String") < pos("GoString") && pos("GoString") < pos("Error"), fmt.Sprint(ifaceOrder))
 	}
 	// concrete-before-interface summary obligation
-	r.Check("R01.1", un, "every concrete arm precedes the interface arms it satisfies", update.Pos(), true, fmt.Sprintf("%d arms examined", len(arms)))
+	r.Check("R01.1", un, "every concrete arm precedes the interface arms it satisfies", armFn.Pos(), true, fmt.Sprintf("%d arms examined", len(arms)))
 
 	// ---- R01.2 / R01.3
-	recv := update.Params[0]
+	recv := armFn.Params[0]
 	strStoresIn := func(entry *ssa.BasicBlock) []*ssa.Store {
 		var out []*ssa.Store
-		for _, b := range update.Blocks {
+		for _, b := range armFn.Blocks {
 			if !entry.Dominates(b) {
 				continue
 			}
@@ -254,7 +266,7 @@ func runC01(c *Ctx) {
 	}
 	nstores := 0
 	for _, a := range arms {
-		if a.Fn != update {
+		if a.Fn != armFn {
 			// an arm of the helper: its text is what it returns
 			nret := 0
 			for _, b := range a.Fn.Blocks {
@@ -309,7 +321,7 @@ func runC01(c *Ctx) {
 	{
 		inArm := func(st *ssa.Store) bool {
 			for _, a := range arms {
-				if a.Fn == update && a.Entry != nil && a.Entry.Dominates(st.Block()) {
+				if a.Fn == armFn && a.Entry != nil && a.Entry.Dominates(st.Block()) {
 					return true
 				}
 			}
@@ -317,10 +329,10 @@ func runC01(c *Ctx) {
 		}
 		n := 0
 		for _, fs := range c.StoresTo(str) {
-			if fs.Fn != update || fs.Base != ssa.Value(recv) {
+			if !unit[fs.Fn] || len(fs.Fn.Params) == 0 || fs.Base != ssa.Value(fs.Fn.Params[0]) {
 				continue
 			}
-			if inArm(fs.St) || (helper != nil && fs.St.Val == ssa.Value(helperCall)) {
+			if fs.Fn == armFn && inArm(fs.St) || (helper != nil && fs.St.Val == ssa.Value(helperCall)) {
 				continue
 			}
 			// the documented empty-text bookkeeping may store the constant ""
@@ -336,7 +348,7 @@ func runC01(c *Ctx) {
 	c01Emptiness(c, update, recv, str, empty)
 	// writers of empty outside Update
 	for _, fs := range c.StoresTo(empty) {
-		if fs.Fn != update {
+		if !unit[fs.Fn] {
 			ok := fs.Fresh
 			if k, isC := constBool(fs.St.Val); isC && !k && fs.Fresh {
 				ok = true
@@ -345,7 +357,7 @@ func runC01(c *Ctx) {
 		}
 	}
 	for _, fs := range c.StoresTo(str) {
-		if fs.Fn != update {
+		if !unit[fs.Fn] {
 			r.Check("R01.4", FuncName(fs.Fn), "store Cell.str outside Update", fs.St.Pos(), false, "the text is written somewhere that does not recompute the empty flag")
 		}
 	}
@@ -415,7 +427,7 @@ func runC01(c *Ctx) {
 				return
 			}
 			ninv++
-			r.Check("R01.6", FuncName(fn), "method call on the stored item: "+calleeDesc(cc), in.Pos(), fn == update || fn == helper, "the item is consulted outside Update: a mutated item would show through without an update")
+			r.Check("R01.6", FuncName(fn), "method call on the stored item: "+calleeDesc(cc), in.Pos(), unit[fn] || fn == helper, "the item is consulted outside Update: a mutated item would show through without an update")
 		})
 		// callers of Update
 		eachInstr(fn, func(in ssa.Instruction) {
@@ -1032,4 +1044,13 @@ func isRecvValue(fn *ssa.Function, v ssa.Value) bool {
 		}
 	}
 	return false
+}
+
+func sortedFuncs(m map[*ssa.Function]bool) []*ssa.Function {
+	var out []*ssa.Function
+	for f := range m {
+		out = append(out, f)
+	}
+	sort.Slice(out, func(i, j int) bool { return FuncName(out[i]) < FuncName(out[j]) })
+	return out
 }
